@@ -185,7 +185,7 @@ Section CoversMain.
     apply schema_ind_p.
     - intros b. split; [intros Hf; discriminate Hf|intros Hf; discriminate Hf].
     - intros ty fmt enum cst nv sv ik items ai mni mxi uq props req ap mnp mxp allo anyo oneo no ref dflt title
-             IHitems2 IHprops2 IHap2 IHone.
+             IHitems2 IHprops2 IHap2 IHone _.
       assert (IHitems : Forall Cv items) by (eapply Forall_impl; [|exact IHitems2]; intros a Ha; exact (proj1 Ha)).
       assert (IHprops : Forall (fun kv => Cv (snd kv)) props)
         by (eapply Forall_impl; [|exact IHprops2]; intros a Ha; exact (proj1 Ha)).
